@@ -41,6 +41,13 @@ type Server struct {
 	SSReg        bool // IO thread registered as semi-sync when it last started
 	StickyErr    bool // replication errors come back after every START (permanent breakage)
 	StickySource string // if set, StickyErr holds only while the server points at this source
+	// RecurErr: an applier error that comes back whenever the SQL thread starts, also after RESET + CHANGE SOURCE
+	// (the offending transaction is fetched again by auto-position)
+	RecurErr int
+	// ResetBreaksStart: the first START REPLICA after a RESET REPLICA ALL fails with 1872 (relay log info repository
+	// not initialised), the next one works - a real MySQL behaviour after resets with leftover relay logs
+	ResetBreaksStart bool
+	startBroken      bool
 
 	Lag            *float64 // reported Seconds_Behind_Source when both threads run (nil => 0)
 	DownloadRate   int64    // transactions per pump step the IO thread fetches (0 = unlimited)
